@@ -96,7 +96,7 @@ fn rel_node(rng: &mut Rng, id: &str, r: &str, r2: &str) -> (String, String, bool
     let loc2 = *rng.pick(LOCS);
     let dir = *rng.pick(&["h", "H", "v", "V"]);
     // returns (kind, xml, uses_second_ref)
-    match rng.below(42) {
+    match rng.below(46) {
         0 => ("rel-dir-wh".into(), format!("<rect id=\"{id}\" xy=\"#{r}|{dir} {g}\" wh=\"{w} {h}\"/>"), false),
         1 => (
             "rel-dir-longsize".into(),
@@ -285,6 +285,29 @@ fn rel_node(rng: &mut Rng, id: &str, r: &str, r2: &str) -> (String, String, bool
         40 => (
             "rel-reuse-centered".into(),
             format!("<reuse id=\"{id}\" href=\"#{r}\" cxy=\"{w} {h}\"/>"),
+            false,
+        ),
+        41 => (
+            // '^' right after an element that may have to wait: lexically it is that element
+            "rel-prev-after-waiting".into(),
+            format!("<rect id=\"{id}p\" xy=\"#{r}|{dir} {g}\" wh=\"{w} {h}\"/><rect id=\"{id}\" xy=\"^|h 1\" wh=\"{w}\"/>"),
+            false,
+        ),
+        42 => (
+            // '^' in an element that itself may have to wait (its size refers to r)
+            "rel-prev-in-waiting".into(),
+            format!("<rect id=\"{id}p\" xy=\"{g} {w}\" wh=\"{h}\"/><rect id=\"{id}\" xy=\"^|{dir} {g}\" wh=\"#{r}\"/>"),
+            false,
+        ),
+        43 => (
+            "rel-prev-in-group".into(),
+            format!("<g id=\"{id}\"><rect xy=\"{g} {h}\" wh=\"{w}\"/><rect xy=\"^|{dir}\" wh=\"#{r}\"/><circle cxy=\"^@{loc}\" r=\"2\"/></g>"),
+            false,
+        ),
+        44 => (
+            // the element before the '^' user is a group whose content waits
+            "rel-prev-after-waiting-group".into(),
+            format!("<g id=\"{id}p\"><rect xy=\"#{r}@{loc}\" wh=\"{w} {h}\"/></g><rect id=\"{id}\" xy=\"^|{dir} {g}\" wh=\"{h}\"/>"),
             false,
         ),
         _ => (
@@ -497,7 +520,11 @@ impl Engine for C10 {
                 // extent of such an instance differs between its own code paths (observed, see
                 // DESIGN.md §9.3), which is about clipping, not about forward references
                 let centered_on_instance = kind.contains("centered") && (nodes[d1].kind.contains("use") || nodes[d1].kind.contains("clipped"));
-                if centered_on_instance || (kind.contains("use") && (nodes[d1].kind.starts_with("rel-clipped") || nodes[d2].kind.starts_with("rel-clipped"))) {
+                // <reuse> re-evaluates the target's attributes at the reuse site: a '^' in the
+                // target then names whatever precedes the <reuse>, which no longer stays inside
+                // one node (and legitimately depends on the sibling order)
+                let reuse_of_prev_user = kind.contains("reuse") && (nodes[d1].kind.contains("rel-prev") || nodes[d2].kind.contains("rel-prev"));
+                if centered_on_instance || reuse_of_prev_user || (kind.contains("use") && (nodes[d1].kind.starts_with("rel-clipped") || nodes[d2].kind.starts_with("rel-clipped"))) {
                     let r = rel_node_plain(&id, &nodes[d1].id.clone(), &mut w);
                     kind = r.0;
                     xml = r.1;
@@ -867,7 +894,7 @@ impl Engine for C10 {
     }
     fn assumptions(&self) -> Vec<&'static str> {
         vec![
-            "generated elements are side-effect free (no '^', no <var>, no random functions), so geometry may only depend on the reference graph",
+            "generated nodes are self-contained (a '^' only ever names an element of its own node, which stays adjacent under every order; no random functions), so geometry may only depend on the reference graph",
             "numeric comparison with absolute tolerance 2e-3 (output is rounded to 3 decimals)",
             "root viewBox/width/height are not compared (that is C08, not applicable)",
         ]
